@@ -383,7 +383,13 @@ def run_level(ctx, corrs, tr, ix, api_level):
             d = acct_sync.diff_state(am, snap["accounts"][t], ctx.stats)
             diffs += [(t + "." + p, repr(m), repr(v)) for p, m, v in d[:4]]
         if not acct_sync.feq(units, snap["pf"]["units"]):
-            diffs.append(("units", repr(units), repr(snap["pf"]["units"])))
+            nav_ = snap["pf"].get("nav")
+            if nav_ is not None and nav_ == nav_ and abs(nav_) < 1e-3 and abs(units - snap["pf"]["units"]) <= 1e-6 * max(abs(units), abs(snap["pf"]["units"])):
+                # a portfolio that has lost more than 99.9 % of its value: the total value is a small difference of large ledger entries (each compared to 1e-9), the unit count
+                # computed from it is ill-conditioned — agreement to 1e-6 is what the inputs' agreement can guarantee
+                ctx.stats["world_units_ill_conditioned_after_collapse"] += 1
+            else:
+                diffs.append(("units", repr(units), repr(snap["pf"]["units"])))
         if not acct_sync.feq(static, snap["pf"]["static_nav"]) and snap["pf"]["static_nav"] == snap["pf"]["static_nav"]:
             diffs.append(("static_nav", repr(static), repr(snap["pf"]["static_nav"])))
         if opens != list(snap["open"]):
